@@ -117,7 +117,7 @@ UNIT = {
  'native': {'tests': [
     {'name': 'write_cmap_roundtrip_small_universes', 'code': 'bounded_roundtrip_harness.rs', 'place': 'pdf/src/font.rs',
      'filter': 'cmap_bounded', 'fn': 'write_cmap', 'props': ['C19'], 'tier': 'quick',
-     'bound': 'all 1024 maps over codes 0..4 x {absent, "A", U+00FF, U+1D11E}; 2560 maps over boundary codes; 86 generated conformant texts',
+     'bound': 'all 1024 maps over codes 0..4 x {absent, "A", U+00FF, U+1D11E}; 2560 maps over boundary codes; 2079 linear runs (7 start codes x length 1..6 x 11 first characters, each with every single gap) crossing the xxFF, surrogate and BMP boundaries; 86 generated conformant texts',
      'contract': 'parse_cmap(write_cmap(m)) == m (write_cmap itself is outside both verifiers: HashMap iteration + itertools group_by + from_fn closure)'},
  ]},
 }
